@@ -73,6 +73,8 @@ def pipeline(ctx, want):
     """want: list of verdict classes that are violations for this property"""
     # SPEC
     ctx.tlc("Tracker.tla", "Tracker_mc_quick.cfg", workers=12, timeout=1500)
+    # liveness under worker/daemon fairness: once the instructions stop the tracker comes to rest
+    ctx.tlc("Tracker.tla", "Tracker_live.cfg", workers=8, timeout=1500)
     if not ctx.quick():
         ctx.tlc("Tracker.tla", "Tracker_mc_2cid.cfg", workers=12, timeout=3000)
         ctx.tlc("Tracker.tla", "Tracker_mc_thorough.cfg", workers=16, timeout=6000, heap="16g")
